@@ -150,6 +150,9 @@ def probe_event(t0, name, opt, rule, text=""):
 
 def print_event(text):
     """str(parse(text)) parsed back with the real parser"""
+    _NOISE[0] += 1
+    if _NOISE[0] % 40 == 1:
+        common.process_noise(_NOISE[0] // 40)
     try:
         t0 = parse(text)
     except BaseException:  # noqa
@@ -191,7 +194,17 @@ def reprobe_event(tree, persistent, text, after):
     return {"typ": "reprobe", "rule": after, "opt": "", "text": text, "k": 0, "used": used, "fresh": fresh}
 
 
+_NOISE = [0]
+
+
 def events_for_text(job):
+    _NOISE[0] += 1
+    if _NOISE[0] % 25 == 1:
+        common.process_noise(_NOISE[0] // 25)
+    return _events_for_text(job)
+
+
+def _events_for_text(job):
     """all probe + step events of one start text (every rule instance, every applicable node).
     One set of rule objects is used for the whole text, as a search agent would."""
     text, want_probe = job[0], job[1]
